@@ -83,6 +83,12 @@ Proof.
   apply pair_eqb_eq in H1. apply (opt_eqb_eq _ ap_eqb_eq) in H2. apply (opt_eqb_eq _ h_eqb_eq) in H3. apply IH in H4. now subst.
 Qed.
 
+Lemma rows_eqb_eq a b : rows_eqb a b = true -> a = b.
+Proof.
+  revert b. induction a as [|x r IH]; intros [|y r']; cbn [rows_eqb]; try discriminate; [reflexivity|].
+  intros H. apply andb_true_iff in H. destruct H as [H1 H2]. apply nlist_eqb_eq in H1. apply IH in H2. now subst.
+Qed.
+
 Lemma snap_eqb_eq a b : snap_eqb a b = true -> s_txbytes a = s_txbytes b -> a = b.
 Proof.
   unfold snap_eqb. intros H. repeat (apply andb_true_iff in H; destruct H as [H ?]).
@@ -92,6 +98,7 @@ Proof.
          | h : plist_eqb _ _ = true |- _ => apply plist_eqb_eq in h
          | h : llist_eqb _ _ = true |- _ => apply llist_eqb_eq in h
          | h : aview_eqb _ _ = true |- _ => apply aview_eqb_eq in h
+         | h : rows_eqb _ _ = true |- _ => apply rows_eqb_eq in h
          | h : (_ =? _) = true |- _ => apply N.eqb_eq in h
          | h : Bool.eqb _ _ = true |- _ => apply Bool.eqb_prop in h
          end.
@@ -144,9 +151,9 @@ Lemma group_step_ok_sound sink before g : group_step_ok sink before g = true ->
   (g_code g <> 0 -> g_snap g = before) /\
   (g_code g = 0 ->
      s_payset (g_snap g) = s_payset before + N.of_nat (List.length (g_txns g)) /\
-     s_txncount (g_snap g) = s_txncount before + N.of_nat (List.length (g_txns g)) /\
+     s_txncount before + N.of_nat (List.length (g_txns g)) <= s_txncount (g_snap g) /\
      s_txids (g_snap g) = s_txids before ++ map (fun tx => (t_txid tx, t_lv tx)) (g_txns g) /\
-     s_fees (g_snap g) = (s_fees before + fees_of sink (g_txns g)) mod 2 ^ 64).
+     s_fees before + fees_of sink (g_txns g) <= s_fees (g_snap g)).
 Proof.
   unfold group_step_ok. destruct (g_code g =? 0) eqn:Hc; intros H.
   - apply N.eqb_eq in Hc. split; [intros Hn; contradiction|]. intros _.
@@ -154,8 +161,9 @@ Proof.
     repeat match goal with
            | h : plist_eqb _ _ = true |- _ => apply plist_eqb_eq in h
            | h : (_ =? _) = true |- _ => apply N.eqb_eq in h
+           | h : (_ <=? _) = true |- _ => apply N.leb_le in h
            end.
-    auto.
+    repeat split; auto; lia.
   - apply N.eqb_neq in Hc. split; [|intros He; contradiction]. intros _.
     apply andb_true_iff in H. destruct H as [H1 H2]. apply N.eqb_eq in H2. now apply snap_eqb_eq.
 Qed.
@@ -184,18 +192,17 @@ Proof.
 Qed.
 
 (* ------------------------------------------------------------------ C21 oracle *)
-Definition entry_ok (P : params) (lvl sink pool sps : N) (e e' : N * acct) : Prop :=
-  fst e = fst e' /\
-  (snd e = snd e' \/ fst e = sink \/ fst e = pool \/ fst e = sps \/ acct_is_zero (snd e') = true \/
-   spec_min_balance P (snd e') <= bwp P lvl (snd e')).
+Definition entry_ok (P : params) (lvl sink pool sps : N) (before : table) (e : N * acct) : Prop :=
+  (match afind (fst e) before with Some y => y | None => acct0 end) = snd e \/
+  fst e = sink \/ fst e = pool \/ fst e = sps \/ acct_is_zero (snd e) = true \/
+  spec_min_balance P (snd e) <= bwp P lvl (snd e).
 
 Lemma changed_ok_sound P lvl sink pool sps before after :
-  changed_ok P lvl sink pool sps before after = true -> Forall2 (entry_ok P lvl sink pool sps) before after.
+  changed_ok P lvl sink pool sps before after = true -> Forall (entry_ok P lvl sink pool sps before) after.
 Proof.
-  revert after. induction before as [|[a x] r IH]; intros [|[a' x'] r']; cbn [changed_ok]; try discriminate; [constructor|].
-  intros H. apply andb_true_iff in H. destruct H as [H H3]. apply andb_true_iff in H. destruct H as [H1 H2].
-  constructor; [|auto]. unfold entry_ok. cbn [fst snd]. apply N.eqb_eq in H1. split; [assumption|].
-  repeat (apply orb_true_iff in H2; destruct H2 as [H2|H2]).
+  unfold changed_ok. intros H. apply Forall_forall. intros e He.
+  rewrite forallb_forall in H. specialize (H e He). unfold entry_ok.
+  repeat (apply orb_true_iff in H; destruct H as [H|H]).
   - left. now apply acct_eqb_eq.
   - right. left. now apply N.eqb_eq.
   - right. right. left. now apply N.eqb_eq.
@@ -208,12 +215,13 @@ Qed.
 (* a small world: 1 fee sink, 2 rewards pool (both not participating), 3 offline, 4 online,
    5 empty; the level rises from 0 to 4 *)
 Definition ex_P : params :=
-  mkParams 1000000 100000 1000 true 16 true true 2000000 true true true 0 0 100000 100000 2500 400 25000 3500 25000 320 32 true.
+  mkParams 1000000 100000 1000 true 16 true true 2000000 true true true 0 0 100000 100000 2500 400 25000 3500 25000 320 32 true
+           0 0 64 32768 true.
 Definition ex_E (validate generate : bool) : env := mkEnv ex_P 7 4 1 2 99 validate generate.
 Definition ex_acct (st : status) (algos : N) : acct := set_algos (set_status acct0 st) algos.
 Definition ex_base : base :=
   mkBase [(1, ex_acct NotPart 10000000); (2, ex_acct NotPart 1000000000); (3, ex_acct Offline 5500000);
-          (4, set_part (ex_acct Online 20000000) Online true 0 7 8 9 1 3000 100)] [] 1000 [].
+          (4, set_part (ex_acct Online 20000000) Online true 0 7 8 9 1 3000 100)] [] 1000 [] [] [] [].
 Definition ex_U : list N := [1; 2; 3; 4; 5].
 Definition ex_tx (txid sender fee : N) (b : body) : txn := mkTxn sender fee 5 20 0 true true sender 0 txid 1000000 0 b.
 Definition ex_groups : list (list txn * N) :=
@@ -266,7 +274,7 @@ Proof. split; [vm_compute; reflexivity | vm_compute; discriminate]. Qed.
    final CalculateTotals check ("sum of money changed") rejects such a block. *)
 Definition ex_np_cow : cow :=
   mkCow layer0 [] (mkBase [(1, ex_acct NotPart 10000000); (2, ex_acct NotPart 1000000000);
-                           (6, set_part (ex_acct NotPart 50000000) NotPart false 0 9 0 0 0 3 0)] [] 0 []).
+                           (6, set_part (ex_acct NotPart 50000000) NotPart false 0 9 0 0 0 3 0)] [] 0 [] [] [] []).
 
 Theorem expire_nonparticipating_refuted :
   exists c', end_block (ex_E true false) [6] [] 0 0 ex_np_cow = (c', Ok tt) /\
